@@ -77,7 +77,7 @@ pub fn cases(rng: &mut Rng, tier: &str) -> (Vec<Case>, bool) {
                 _ => {
                     let text = match rng.below(14) {
                         0 => "RUN".to_string(),
-                        1 => "NEW".to_string(),
+                        1 => rng.pick(&["NEW", "NEW", "new", "NEW GAME", "new 10", "New :", "  NEW  ", "NEW\t1", "NEW NEW"]).to_string(),
                         2 => rng.pick(&["TRACE", "NOTRACE", "LIST", "CONT"]).to_string(),
                         3 => format!("{}{}", rng.pick(&["  ", "    ", "\t"]), rng.pick(&["A$ = \"", "PRINT \"x", "%", "X = 1.2.3", "PRINT 1"])),
                         4 => format!("{}{}", rng.pick(&["PRINT \"unterminated", "A$ = \"x"]), rng.pick(&["", " ", "   "])),
@@ -92,7 +92,7 @@ pub fn cases(rng: &mut Rng, tier: &str) -> (Vec<Case>, bool) {
                     if text == "wtick" || text == "wbreak" {
                         text
                     } else {
-                        if text == "NEW" {
+                        if text.trim().to_ascii_uppercase().starts_with("NEW") {
                             kinds.insert("new");
                         }
                         kinds.insert("submit");
@@ -196,7 +196,8 @@ pub fn cases(rng: &mut Rng, tier: &str) -> (Vec<Case>, bool) {
             ops.push("wtick".to_string());
             ops.push("wbreak".to_string());
         }
-        ops.push(ev("wsubmit", "NEW"));
+        // the command is the FIRST WORD of the line, in any case, whatever follows it
+        ops.push(ev("wsubmit", &rng.pick(&["NEW", "new", "NEW GAME", "New 10", "NEW :", " NEW  "])));
         let a = ops.len();
         for p in probes {
             ops.push(ev("wsubmit", p));
